@@ -169,7 +169,9 @@ func runC13(e *Env) {
 		t.AutoSample()
 		t.NonTrivial(bd.Desc)
 		t.Count("rejection."+bd.Reason, 1)
-		if _, panicked := catch(bd.Do); !panicked {
+		pvv, panicked0 := catch(bd.Do)
+		t.Tracef("registration panicked=%v: %v", panicked0, pvv)
+		if panicked := panicked0; !panicked {
 			t.Fail("accepted-invalid:"+bd.Reason, "invalid definition (%s) was accepted at registration: %s", bd.Reason, bd.Desc)
 		}
 	})
